@@ -24,7 +24,8 @@ Histories of operations on one real MarshalledMessageBody and one real MessageBo
             elements.  Expected: refused, no trace, no panic.
 
 Observables compared with the model after EVERY operation (error variants collapsed to "failed"):
-  builder ops: result, signature, bytes, number of attached descriptors;
+  builder ops: result, signature, bytes, number of attached descriptors; validate() after every builder operation of the
+               offset / long / corpus histories and once before the parser walk of the others;
   parser ops:  result, decoded value tokens (descriptor values masked, maps canonical), get_next_sig(), sigs_left(),
                and the two private cursors (buf_idx, sig_idx) read off the parser's derived Debug output.
 Independently of the model, on the implementation's own output: a failing push leaves (signature, bytes, descriptor
@@ -226,12 +227,18 @@ class Enc:
             raise ValueError(t)
 
 
-def with_cursor(ops):
+def with_cursor(ops, validate_every=False):
+    """PCUR after every parser op; BVALID (body.validate()) after every builder op (validate_every) or once before the parser"""
     out = []
     for o in ops:
+        name = o.split(" ", 1)[0]
+        if name in ("PNEW", "PNEWX") and not validate_every and out and out[-1] != "BVALID":
+            out.append("BVALID")
         out.append(o)
-        if o.split(" ", 1)[0] in PARSER_OPS:
+        if name in PARSER_OPS:
             out.append("PCUR")
+        elif validate_every and name[0] == "B" and name != "BVALID":
+            out.append("BVALID")
     return out
 
 
@@ -525,6 +532,9 @@ class Gen:
             else:
                 ops.append("BPUSHM %d %s" % (g, " ".join("%s %s" % (t, v) for t, v in zip(tys, vs))))
             i += g
+        if r.random() < 0.45:
+            # the body (and with it the parser's copy) lies behind other bytes, as every received message does
+            ops.append(r.choice(["BRECV", "BRECV", "BOFF %d" % self.an_offset()]))
         if mode == "varmismatch":
             c = r.choice([i for i, t in enumerate(types) if "v[" in t])
             ops.append("PNEW")
@@ -987,6 +997,17 @@ def check_history(ctx, h, hi, hm):
         ctx.count("op:" + opname)
         if res in PROTOCOL_WORDS or res.startswith("PANIC") or resm in PROTOCOL_WORDS or resm in ("panic", "ub", "fuel"):
             return ("harness or driver did not understand the line / model outcome outside ok|err (%s | %s)" % (li[:60], lm[:60]), k, "protocol")
+        if opname == "BVALID":
+            if not (li.startswith("valid=") and lm.startswith("valid=")):
+                return ("BVALID answered %s | %s" % (li[:40], lm[:40]), k, "protocol")
+            ctx.count("validate:" + li[6:])
+            if li != lm:
+                # the body itself was compared with the model's on the line before: same signature, same bytes
+                if li == "valid=false":
+                    return ("validate() rejects a body that is the specification's rendering of the committed values (model: valid)", k, False)
+                return ("validate() accepts a body the model's validate rejects", k, "protocol")
+            k += 1
+            continue
         if opname[0] == "B":
             ctx.count("res:B:" + res)
             if " via=" in li:
@@ -1033,6 +1054,7 @@ def check_history(ctx, h, hi, hm):
         ctx.count("res:P:" + res)
         pstate = (st.get("next"), st.get("left"), cur_i)
         if opname in ("PNEW", "PNEWX"):
+            ctx.count("parser-over-body-at-offset:" + ("0" if " at=0" in li + " " or " at=" not in li else ">0"))
             if (st.get("next"), st.get("left"), cur_i) != (stm.get("next"), stm.get("left"), cur_m):
                 return ("new parser differs from the model", k, True)
             prev_p = pstate
@@ -1264,7 +1286,13 @@ def run(ctx):
         if "=" in part:
             k, v = part.split("=", 1)
             known[k] = v.split(",")
-    cat = [t for t in wg.catalogue() if t in set(known.get("catalogue", []))]
+    def readable(t):
+        try:
+            wg.parse_ext(t)
+            return True
+        except Exception:                          # noqa: BLE001 - a flavour marker this wiregen does not know yet
+            return False
+    cat = [t for t in wg.catalogue() if t in set(known.get("catalogue", [])) and readable(t)]
     mix = list(known.get("mix", []))
     if len(cat) < 100 or len(mix) < 20:
         ctx.tie_broken("c15 harness does not report its types", str(ans)[:500])
@@ -1280,8 +1308,9 @@ def run(ctx):
                 "get2..5; retry / get_param / right type after every failure) + %d long (signature grown to 253..258 and beyond 255, then "
                 "failing pushes of every kind, reset) + %d badtree (push_old_param(s) with empty structs at any depth, mismatching variants, "
                 "arrays/maps with other declared types) + %d offset (the body re-made at buf_offset > 0 by from_parts or by the receive path "
-                "marshal + unmarshal_next_message, then failing and succeeding pushes, reset, walk) + corpus/C15; thorough: x5. Compared after every operation: result, signature, "
-                "bytes, descriptor count (builder); result, value tokens, next signature, signatures left, buf_idx, sig_idx (parser). "
+                "marshal + unmarshal_next_message, then failing and succeeding pushes, reset, walk) + corpus/C15; thorough: x5. Parsers are made over a copy of the body at the same buf_offset (45%% of the decode histories re-home "
+                "the body first). Compared after every operation: result, signature, "
+                "bytes, descriptor count, validate() (builder); result, value tokens, next signature, signatures left, buf_idx, sig_idx (parser). "
                 "non-trivial = at least one failing operation or a reset; distinct = distinct histories"
                 % (n_generic, n_decode, n_long, n_tree, n_offset))
     # informational, never a verdict (see ALIGNED_OFFSET_BEYOND_BUFFER): an aligned offset strictly beyond the buffer
@@ -1316,7 +1345,7 @@ def run(ctx):
         kinds.append("badtree")
         for x in tk:
             ctx.count("badtree:" + x)
-    runnable = [with_cursor(strip_meta(h)) for h in histories]
+    runnable = [with_cursor(strip_meta(h), validate_every=(kind in ("offset", "corpus", "long"))) for h, kind in zip(histories, kinds)]
     ok, impl, err = run_histories(exe, runnable, vlib.NPROC)
     if not ok:
         ctx.tie_broken("c15 harness crashed", err)
